@@ -76,6 +76,7 @@ func Defects(t M) []Mutation {
 		// several keys of one set that are related: equal up to case, one a prefix of the other, equal name under different prefixes
 		add("annotation-keys-related-valid@"+level, p, "set", M{"vendor.com/Mode": "a", "vendor.com/mode": "b", "Vendor.com/mode": "c", "mode": "d", "MODE": "e", "vendor.com/mode.x": "f", "other.org/mode": "g"}, val)
 		add("annotations-too-large@"+level, p, "set", M{"big": strings.Repeat("x", 256*1024)}, inv)
+		add("annotations-too-large-in-bytes-only@"+level, p, "set", M{"big": strings.Repeat("\u20ac", 90000)}, inv) // 270000 bytes, 90000 characters
 		add("annotations-at-size-limit@"+level, p, "set", M{"big": strings.Repeat("x", 256*1024-3)}, val)
 		add("annotation-value-not-string@"+level, p, "set", M{"k": L{"x"}}, inv)
 		// a malformed key together with a value that is not a string (the schema's key pattern does
